@@ -59,7 +59,13 @@ fn run_line(ctx: &mut verbs::Ctx, line: &str) -> bool {
         None => return true,
     };
     let limit: usize = it.next().and_then(|x| x.parse().ok()).unwrap_or(usize::MAX);
-    let verb = it.next().unwrap_or("").to_string();
+    let mut verb = it.next().unwrap_or("").to_string();
+    // `verb@k`: hand the library its input buffers k bytes off their allocation's alignment
+    ctx.skew = 0;
+    if let Some(p) = verb.rfind('@') {
+        ctx.skew = verb[p + 1..].parse().unwrap_or(0);
+        verb.truncate(p);
+    }
     let args: Vec<String> = it.map(decode_arg).collect();
     if verb == "quit" {
         return false;
@@ -101,6 +107,7 @@ fn run_line(ctx: &mut verbs::Ctx, line: &str) -> bool {
         ("seq".to_string(), J::from(seq)),
         ("ev".to_string(), J::from("ret")),
         ("verb".to_string(), J::from(verb.as_str())),
+        ("skew".to_string(), J::from(ctx.skew)),
         ("outcome".to_string(), J::from(outcome.as_str())),
         ("value".to_string(), J::Raw(value)),
         (
